@@ -128,6 +128,8 @@ fn nickel(t: &Sx) -> String {
         "proj" => format!("({}).{}", a(1), atom(&items[2])),
         "fail" => "(std.fail_with \"boom\")".into(),
         "imp" => format!("(import \"{}.ncl\")", atom(&items[1])),
+        "merge" => format!("({} & {})", a(1), a(2)),
+        "seq" => format!("(std.seq {} {})", a(1), a(2)),
         h => panic!("unknown term head {h}"),
     }
 }
